@@ -3,6 +3,9 @@
 import json, subprocess
 ALL = ["C%02d" % i for i in range(1, 21)]
 CLAIMED = {
+ "C12": dict(level="exploration", technique="offline linearizability checking (porcupine v1.3.0) of recorded client histories against a sequential model, Go race detector, injected delays at verifhook points, final live-vs-reloaded reads",
+   text="Many short concurrent histories on shared ids of one location are recorded at the API boundary with unique written values and checked for linearizability, including agreement of the final in-memory and stored states; the race detector and the child's exit status cover the crash / data-race clauses; a porcupine timeout is inconclusive.",
+   note="Schedules are sampled (stress + seeded delays), not enumerated; the sequential model in mon/c12 is trusted; strict-fail/relaxed-pass histories are attributed to the open finding c12.pe-two-instant; expiry during concurrent access is not in the workload.", ref="§5 C12"),
  "C13": dict(level="exploration", technique="grammar-based hostile-input fuzzing with a crash / hang / canary oracle: per-call watchdog and panic capture, child-process exit status with last-journaled input, canary traffic after every input",
    text="Hostile documents are pushed through every fact/rule/search/query/event entry point of core.Location, sys.System and the HTTP service; each call must return within the watchdog without a panic, HTTP must answer, and the location must keep serving a fixed canary sequence; process-fatal failures are attributed through the journal.",
    note="Totality is sampled, not enumerated; the strict canary runs after the accepted input has been removed again; the sheens stack-overflow recursion is an open known finding confined to its own child.", ref="§5 C13"),
